@@ -168,6 +168,8 @@ def point_at(pc, levels):
 # ---- pdf records ---------------------------------------------------------------------------
 
 def rel15(val, ref):
+    if ref == math.inf:
+        return 0 if val == math.inf else BIG
     if not math.isfinite(val):
         return BIG
     if ref == 0.0:
@@ -185,8 +187,13 @@ def ref_product(model, P):
         with warnings.catch_warnings():
             warnings.simplefilter("ignore")
             fi = d.pdf(P[:, i]) if c is None else d.pdf(P[:, i], given=P[:, c])
-        out = out * np.asarray(fi, dtype=float)
-    return out
+        fi = np.asarray(fi, dtype=float)
+        zero = (fi == 0) if i == 0 else (zero | (fi == 0))
+        with np.errstate(invalid="ignore"):
+            out = out * fi
+    # a density factor that is exactly 0 makes the joint density 0 (0 * anything = 0), also where another
+    # factor is unbounded
+    return np.where(zero, 0.0, out)
 
 
 def ref_product_flushed(model, P):
@@ -243,6 +250,76 @@ def pdf_task(c):
     nz = int(np.sum(ref > 0)) + int(np.sum(refint > 0))
     return [dict(rec=rec, key="pdf " + model_key(c), nontrivial=nz > 0 and M.nontrivial_dependence(model._verif),
                  case=c)]
+
+
+def boundary_description(rng, variant):
+    """parent whose density is exactly 0 below its location / at 0, child whose conditional density is
+    unbounded at 0 (Weibull shape < 1, exponentiated Weibull beta*delta < 1, generalized gamma m*c < 1)"""
+    parent = [{"family": "weibull", "params": {"alpha": float(rng.uniform(1, 3)), "beta": float(rng.uniform(1.2, 2.5)),
+                                                "gamma": float(rng.uniform(0.3, 1.0))}},
+              {"family": "lognormal", "params": {"mu": float(rng.uniform(0, 1)), "sigma": float(rng.uniform(0.2, 0.6))}},
+              {"family": "expweibull", "params": {"alpha": float(rng.uniform(1, 3)), "beta": float(rng.uniform(1.5, 2.5)),
+                                                   "delta": 1.0}}][variant % 3]
+    child = [{"family": "weibull", "fixed": {"gamma": 0.0},
+              "deps": {"alpha": ["abslinear", [1.0, 0.5]], "beta": ["abslinear", [float(rng.uniform(0.4, 0.6)), 0.1]]}},
+             {"family": "expweibull", "fixed": {"delta": 1.0},
+              "deps": {"alpha": ["abslinear", [1.0, 0.3]], "beta": ["asym3", [float(rng.uniform(0.4, 0.6)), 0.3, 1.0]]}},
+             {"family": "gengamma", "fixed": {},
+              "deps": {"m": ["const", [float(rng.uniform(0.3, 0.6))]], "c": ["const", [float(rng.uniform(0.8, 1.4))]],
+                       "lambda_": ["asym3", [0.6, 0.8, 0.7]]}},
+             {"family": "expweibull", "fixed": {},
+              "deps": {"alpha": ["const", [1.5]], "beta": ["const", [float(rng.uniform(0.5, 0.9))]],
+                       "delta": ["exp3", [float(rng.uniform(0.3, 0.6)), 0.3, 0.5]]}}][(variant // 3) % 4]
+    dims = [parent, child]
+    if variant % 2:
+        dims.append({"family": "lognormal", "fixed": {"sigma": 0.4}, "deps": {"mu": ["loglinear", [0.2, 0.3]]}})
+    n = len(dims)
+    return {"n_dim": n, "cond": [None, 0] + ([1] if n == 3 else []), "families": [d["family"] for d in dims],
+            "shapes": [0] + [4] * (n - 1), "dims": dims}
+
+
+def pdf_boundary_task(c):
+    """points where the conditioning coordinate has density exactly 0 and the conditional density is
+    unbounded: the joint density is 0 (not nan), in every input kind"""
+    vc = import_virocon()
+    desc = c["desc"]
+    model = M.from_description(vc, desc)
+    n = desc["n_dim"]
+    g = desc["dims"][0]["params"].get("gamma", 0.0)
+    tail = [1.3] * (n - 2)
+    P = np.array([[0.4 * g, 0.0] + tail, [0.0, 0.0] + tail, [0.4 * g, 1.0] + tail, [0.0, 2.0] + tail], dtype=float)
+    Pint = np.zeros((2, n), dtype=np.int64)
+    Pint[:, 2:] = 1
+    Pint[1, 1] = 1
+    ref = ref_product(model, P)
+    refint = ref_product(model, Pint.astype(float))
+    calls = [("float_row", lambda: model.pdf(np.array(P[0])), ref[:1], False),
+             ("float_list", lambda: model.pdf([float(v) for v in P[1]]), ref[1:2], False),
+             ("array", lambda: model.pdf(P), ref, False),
+             ("fortran_array", lambda: model.pdf(np.asfortranarray(P)), ref, False),
+             ("int_list", lambda: model.pdf([int(v) for v in Pint[0]]), refint[:1], True),
+             ("int_array", lambda: model.pdf(Pint), refint, True)]
+    rec = dict(kind="pdf", exc="", kinds=[])
+    for name, call, rf, isint in calls:
+        try:
+            with warnings.catch_warnings():
+                warnings.simplefilter("ignore")
+                val = np.asarray(call())
+        except Exception as e:  # noqa
+            rec["exc"] = f"{name}: {type(e).__name__}: {e}"[:200]
+            break
+        shapeok = val.ndim == 1 and val.shape[0] == len(rf)
+        v = np.asarray(val, dtype=float).reshape(-1)
+        rec["kinds"].append(dict(kind=name, n=len(rf), isint=isint, shapeok=bool(shapeok),
+                                 rel=[rel15(float(a), float(b)) for a, b in zip(v, rf)] if shapeok else [],
+                                 sign=[int(np.sign(a)) if math.isfinite(a) else -1 for a in v]))
+    # non-trivial: at least one point really has a zero factor next to an unbounded one
+    with warnings.catch_warnings():
+        warnings.simplefilter("ignore")
+        f1 = np.asarray(model.distributions[1].pdf(P[:2, 1], given=P[:2, 0]), dtype=float)
+    fams = ",".join(desc["families"])
+    return [dict(rec=rec, key=f"pdf-boundary zero-times-unbounded n_dim={n} families={fams} seed={c['seed']}",
+                 nontrivial=bool(np.any(np.isinf(f1)) and np.all(ref[:2] == 0)), case=c, boundary=True)]
 
 
 # ---- integral records ----------------------------------------------------------------------
@@ -654,7 +731,7 @@ def dim_alias_task(c):
 
 
 def run_task(c):
-    return {"refill_history": refill_history_task, "dim_alias": dim_alias_task, "eval_history": eval_history_task, "pdf": pdf_task, "integral": integral_task, "icdf": icdf_task,
+    return {"pdf_boundary": pdf_boundary_task, "refill_history": refill_history_task, "dim_alias": dim_alias_task, "eval_history": eval_history_task, "pdf": pdf_task, "integral": integral_task, "icdf": icdf_task,
             "icdf_history": icdf_history_task}[c["task"]](c)
 
 
@@ -684,6 +761,11 @@ def make_tasks(ctx, cfgs):
     for rep in range(ctx.pick(1, 3)):
         for cfg in by_n[3]:
             pdf_tasks.append(dict(base(cfg), task="pdf", m=ctx.pick(9, 30)))
+    for j in range(ctx.pick(24, 96)):
+        sd = int(rng.integers(1, 2**31 - 1))
+        d_ = boundary_description(np.random.default_rng(sd), j)
+        pdf_tasks.append(dict(task="pdf_boundary", n_dim=d_["n_dim"], cond=d_["cond"], sh=d_["shapes"],
+                              families=d_["families"], seed=sd, desc=d_))
     # integrals: smooth densities; conditional structures with a real dependence (shape 2..4)
     cond2 = [c for c in by_n[2] if c["cond"][1] == 0 and c["sh"][1] != 1]
     ind2 = [c for c in by_n[2] if c["cond"][1] is None]
@@ -895,6 +977,9 @@ def run(ctx):
                 "and 2 (thorough also two 3-D cdf / marginal_cdf calls); marginal_pdf / marginal_cdf / marginal_icdf with the variable "
                 "addressed from the end (dim = -k, python int and numpy integer; 2-D and 3-D) against the same call "
                 "with dim = n_dim-k and the reference, out-of-range dims must raise; "
+                "boundary points where the conditioning coordinate has density 0 "
+                "(below a location, at 0) and the conditional density is unbounded at 0 (Weibull shape < 1, exponentiated "
+                "Weibull beta*delta < 1, generalized gamma m*c < 1): joint density 0 in every input kind; "
                 "buffer histories (model.pdf / marginal_pdf with an ndarray, the SAME array object "
                 "refilled in place by x[:] = .., x[:, 0] = .. or np.copyto, C and F order, row views, evaluated again); "
                 "evaluation histories on one model object (pdf at single "
@@ -958,6 +1043,10 @@ def run(ctx):
     ctx.notes["kinds_without_a_record"] = missing
     nmoved = sum(1 for r, o in zip(recs, meta) if r["kind"] == "history" and o.get("history") == "after-modification"
                  and o["nontrivial"])
+    nbound = sum(1 for o in meta if o.get("boundary") and o["nontrivial"])
+    ctx.notes["pdf_boundary_models_with_zero_times_unbounded_points"] = nbound
+    if nbound < 8:
+        raise Machinery(f"vacuous: only {nbound} boundary models have a zero factor next to an unbounded one")
     nrefill = sum(1 for r, o in zip(recs, meta) if r["kind"] == "history" and o.get("history") == "after-refill"
                   and o["nontrivial"])
     ctx.notes["buffer_refill_histories"] = nrefill
